@@ -199,6 +199,9 @@ class _FakePopen:
         layer = args[args.index('--resume-layer') + 1]
         act = hook(layer, args) if hook else None
         if act and act[0] == 'oserror':
+            if len(act) > 1:
+                import os as _os
+                raise OSError(act[1], _os.strerror(act[1]) + ' (injected)')
             raise OSError(12, 'Cannot allocate memory (injected)')
         vpid = None
         if act and act[0] == 'bytes':
